@@ -1,10 +1,15 @@
 #!/usr/bin/env python3
 """Store confirmed seeded mutants under /verif/seeded/<id>/ (patch.diff, demo.rs, meta.json).
-usage: seedstore.py <id> [<id> ...]   — reads /tmp/seed/<id>.diff, <id>_demo.rs, <id>_meta.json, confirm-<id>.txt, runs seedcheck
-(thorough tier when the mutant only manifests under a cargo feature)."""
+usage: seedstore.py [--wave N] <id> [<id> ...]   — reads /tmp/seed/<id>.diff, <id>_demo.rs, <id>_meta.json, confirm-<id>.txt, runs every
+check against the mutant (thorough tier when it only manifests under a cargo feature) and records which rules fire."""
 import json, os, re, shutil, subprocess, sys
-for mid in sys.argv[1:]:
-    src = '/tmp/seed'
+args = sys.argv[1:]
+wave = None
+if args and args[0] == '--wave':
+    wave = int(args[1])
+    args = args[2:]
+src = '/tmp/seed'
+for mid in args:
     conf = open('%s/confirm-%s.txt' % (src, mid)).read()
     sec = {}
     cur = None
@@ -16,14 +21,11 @@ for mid in sys.argv[1:]:
             sec[cur].append(line)
     def results(name):
         return re.findall(r'^test result: (\w+)\. (\d+) passed; (\d+) failed', '\n'.join(sec.get(name, [])), re.M)
-    orig = results('demo on original')
-    suite = results('existing suite with mutant')
-    mut = results('demo with mutant')
-    ok_orig = bool(orig) and all(r[0] == 'ok' for r in orig)
-    suite_ok = all(r[0] == 'ok' for r in suite) and sum(int(r[1]) for r in suite) >= 166
+    orig, suite, mut = results('demo on original'), results('existing suite with mutant'), results('demo with mutant')
     mut_txt = '\n'.join(sec.get('demo with mutant', []))
-    demo_fails = any(r[0] == 'FAILED' for r in mut) or ('error: test failed' in mut_txt and not mut)
-    if not (ok_orig and suite_ok and demo_fails and 'patch applied' in conf):
+    ok = bool(orig) and all(r[0] == 'ok' for r in orig) and all(r[0] == 'ok' for r in suite) and sum(int(r[1]) for r in suite) >= 166 \
+        and (any(r[0] == 'FAILED' for r in mut) or 'error: test failed' in mut_txt or 'seed_demo::' in mut_txt) and 'patch applied' in conf
+    if not ok:
         print(mid, 'NOT CONFIRMED', orig, suite, mut)
         continue
     meta = json.load(open('%s/%s_meta.json' % (src, mid)))
@@ -35,23 +37,19 @@ for mid in sys.argv[1:]:
     os.makedirs(d, exist_ok=True)
     shutil.copy('%s/%s.diff' % (src, mid), d + '/patch.diff')
     shutil.copy('%s/%s_demo.rs' % (src, mid), d + '/demo.rs')
+    head = subprocess.run(['git', '-C', '/repo', 'rev-parse', '--short', 'HEAD'], capture_output=True, text=True).stdout.strip()
     json.dump({
-        'id': mid,
-        'breaks_property': meta.get('property', mid.split('_')[0]),
-        'summary': meta.get('summary'),
-        'needs_to_manifest': meta.get('needs'),
-        'features': feat,
+        'id': mid, 'wave': wave, 'breaks_property': meta.get('property', mid.split('_')[0]), 'summary': meta.get('summary'),
+        'needs_to_manifest': meta.get('needs'), 'features': feat,
         'origin': 'independent sub-agent given only the property text and a scratch worktree',
         'confirmed_by_me': {
-            'how': 'tools/seedconfirm.sh in a fresh scratch worktree of /repo HEAD: demo passes on the original; patch applies; cargo build ok; '
-                   'full existing suite passes with the mutant; demo fails with the mutant' + (' (demo built with --features %s on nightly)' % feat if feat else ''),
+            'how': 'tools/seedconfirm.sh in a fresh scratch worktree of /repo HEAD (%s): demo passes on the original; patch applies; cargo build ok; full existing suite '
+                   'passes with the mutant; demo fails with the mutant' % head + (' (demo built with --features %s on nightly)' % feat if feat else ''),
             'demo_on_original': '%s passed, %s failed' % (orig[0][1], orig[0][2]),
             'existing_suite_with_mutant': '%d passed, 0 failed' % sum(int(r[1]) for r in suite),
-            'demo_with_mutant': ('%s passed, %s failed' % (mut[-1][1], mut[-1][2])) if mut else 'test binary aborted (unsafe precondition check / out-of-bounds access)',
+            'demo_with_mutant': ('%s passed, %s failed' % (mut[-1][1], mut[-1][2])) if mut else 'test binary failed/aborted',
         },
-        'check_tier_used': tier,
-        'checks_that_fire': caught,
-        'detected': bool(caught),
+        'check_tier_used': tier, 'checks_that_fire_first_run': caught, 'checks_that_fire': caught, 'detected': bool(caught),
         'apply': 'git -C /repo apply /verif/seeded/%s/patch.diff ; ./check <prop>%s ; git -C /repo checkout -- .' % (mid, ' --tier thorough' if feat else ''),
     }, open(d + '/meta.json', 'w'), indent=1)
     print(mid, 'stored; caught by', caught)
